@@ -732,6 +732,44 @@ fn cmd_build(a: &str, qs: &str) -> String {
     }
 }
 
+fn cmd_dump(a: &str) -> String {
+    let ev = match parse_src(a) {
+        Some(e) => e,
+        None => return "badcase".into(),
+    };
+    match build_machine(ev) {
+        Err(()) => "panic".into(),
+        Ok(Err(e)) => format!("err {}", e),
+        Ok(Ok(m)) => {
+            let mut keys: Vec<&omics::coordinate::Contig> = m.inner().keys().collect();
+            keys.sort_by(|a, b| a.as_str().as_bytes().cmp(b.as_str().as_bytes()));
+            let inner = keys
+                .iter()
+                .map(|k| {
+                    let l = &m.inner()[*k];
+                    format!(
+                        "{}=[{}]",
+                        show_x(k.as_str().as_bytes()),
+                        l.intervals
+                            .iter()
+                            .map(|iv| format!("{}-{}={}", iv.start, iv.stop, show_pair(&iv.val)))
+                            .collect::<Vec<_>>()
+                            .join(",")
+                    )
+                })
+                .collect::<Vec<_>>()
+                .join(" ");
+            let mut out = vec![
+                "ok".to_string(),
+                format!("ref={}", show_dict(m.reference_chromosomes())),
+                format!("qry={}", show_dict(m.query_chromosomes())),
+            ];
+            out.push(inner);
+            out.join(" ")
+        }
+    }
+}
+
 fn cmd_ops(a: &str, ops: &str) -> String {
     let ev = match parse_src(a) {
         Some(e) => e,
@@ -822,6 +860,7 @@ fn run_case(line: &str) -> String {
         ("pline", 2) => cmd_pline(t[1]),
         ("sections", 2) => cmd_sections(t[1]),
         ("lines", 2) => cmd_lines(t[1]),
+        ("dump", 2) => cmd_dump(t[1]),
         ("raw", 2) => cmd_raw(t[1]),
         ("seq", 6) => cmd_seq(&t[1..]),
         ("drec", 5) => cmd_drec(t[1], t[2], t[3], t[4]),
